@@ -828,6 +828,13 @@ func (c *Conn) readLoop() {
 func (c *Conn) dispatch(fr *FrameHeader) bool {
 	r, ok := c.loadReq(fr.Stream())
 	if !ok {
+		// Nobody waits on the stream any more (the caller canceled, and the
+		// server has not seen our RST_STREAM yet), but the server paid for this
+		// DATA out of the connection window all the same.
+		if fr.Type() == FrameData {
+			c.consumeConnWindow(fr.Len())
+		}
+
 		return false
 	}
 
@@ -835,6 +842,10 @@ func (c *Conn) dispatch(fr *FrameHeader) bool {
 	// nowhere to put this frame. Drop the stream and carry on.
 	if !r.acquireFor(c, fr.Stream()) {
 		c.dequeueReq(fr.Stream())
+
+		if fr.Type() == FrameData {
+			c.consumeConnWindow(fr.Len())
+		}
 
 		return false
 	}
@@ -1463,27 +1474,37 @@ func (c *Conn) readStream(fr *FrameHeader, res *fasthttp.Response) (err error) {
 		err = NewResetStreamError(
 			fr.Body().(*RstStream).Code(), "stream reset by the server")
 	case FrameData:
-		c.currentWindow -= int32(fr.Len())
-		currentWin := c.currentWindow
-
 		data := fr.Body().(*Data)
 		if data.Len() != 0 {
 			res.AppendBody(data.Data())
+		}
 
-			// let's send the window update
+		// Padding is charged to the windows like data, so a frame that
+		// carries nothing else still has to be handed back.
+		if fr.Len() != 0 {
 			c.updateWindow(fr.Stream(), fr.Len())
 		}
 
-		if currentWin < c.maxWindow/2 {
-			nValue := c.maxWindow - currentWin
-
-			c.currentWindow = c.maxWindow
-
-			c.updateWindow(0, int(nValue))
-		}
+		c.consumeConnWindow(fr.Len())
 	}
 
 	return err
+}
+
+// consumeConnWindow accounts for a DATA frame against the connection receive
+// window and hands the space back once half of it is gone. It runs on the read
+// loop only.
+func (c *Conn) consumeConnWindow(n int) {
+	c.currentWindow -= int32(n)
+	currentWin := c.currentWindow
+
+	if currentWin < c.maxWindow/2 {
+		nValue := c.maxWindow - currentWin
+
+		c.currentWindow = c.maxWindow
+
+		c.updateWindow(0, int(nValue))
+	}
 }
 
 func (c *Conn) updateWindow(streamID uint32, size int) {
